@@ -107,6 +107,9 @@ type deferKey struct {
 // and closures; returns nil for interface invokes, builtins and unresolvable values.
 func (w *IPWalk) ResolveFunc(ctx *Ctx, c *ssa.CallCommon) (*ssa.Function, *ssa.MakeClosure, *Ctx) {
 	if c.IsInvoke() {
+		if f := devirt[c.Method]; f != nil && f.Blocks != nil {
+			return f, nil, nil
+		}
 		return nil, nil, nil
 	}
 	return resolveFuncValue(ctx, c.Value, 0)
